@@ -68,7 +68,8 @@ Fresh == [
   act    |-> FALSE,    \* C14: a child waker was invoked / a child finished / upstream moved during this poll
   allocs |-> 0, peak |-> 0, ctor |-> FALSE,
   \* adapters
-  n      |-> 0, upDone |-> FALSE, upPend |-> FALSE,
+  n      |-> 0, upDone |-> FALSE, upPend |-> FALSE, upaddr |-> 0, updrops |-> 0,
+  owed   |-> 0,        \* C17: the largest lower bound reported so far, less the items yielded since it was reported
   \* joins
   inputs |-> <<>>, firstErr |-> 0, resolved |-> FALSE,
   viol   |-> {}
@@ -103,9 +104,11 @@ NewChild == [st |-> "held", ob |-> FALSE, nt |-> TRUE, ar |-> FALSE, np |-> 0, k
 \* --------------------------------------------------------------- run frame
 StepReset(s, e) == [Fresh EXCEPT !.kind = e.kind, !.cap = e.cap, !.n = e.cap, !.run = e.run, !.mt = "exact" \in DOMAIN e]
 
+\* (what was given to a constructor that failed is never delivered: also a fault of the delivery property of the kind)
 StepNew(s, e) ==
   LET s1 == Chk(s, e.res = "ok", "C15", "constructor failed for capacity " \o ToString(s.cap))
-  IN [s1 EXCEPT !.ctor = TRUE]
+      s2 == Chk(s1, e.res = "ok" \/ s.pend = {}, DeliveryProp(s.kind), "the constructor failed: what was given to it is never delivered")
+  IN [s2 EXCEPT !.ctor = TRUE]
 
 \* --------------------------------------------------------------- allocation
 Alloc(s, al) ==
@@ -141,7 +144,8 @@ StepPush(s, e) ==
           IN [s2 EXCEPT !.pend = @ \ {c}, !.refused = TRUE]
      ELSE \* panic
           LET s1 == Chk(s0, ~room, "C15", "push panicked although there is room")
-          IN [s1 EXCEPT !.pend = @ \ {c}, !.refused = TRUE]
+              s2 == Chk(s1, ~room, DeliveryProp(s.kind), "push panicked although there is room: what was pushed is never delivered")
+          IN [s2 EXCEPT !.pend = @ \ {c}, !.refused = TRUE]
 
 \* --------------------------------------------------------------- observers
 StepObs(s, e) ==
@@ -162,7 +166,7 @@ StepObs(s, e) ==
                 e.hi = -1 \/ e.hi >= e.rem, "C17", "size_hint upper bound is below what is still yielded")
       s6 == IF s.kind \in CollKinds
             THEN Chk(s5, e.lo = len /\ e.hi = len, "C15", "size_hint disagrees with len") ELSE s5
-  IN s6
+  IN [s6 EXCEPT !.owed = Max(@, e.lo)]
 
 \* --------------------------------------------------------------- poll frame
 StepPoll(s, e) ==
@@ -290,14 +294,20 @@ Yield(s, c, k) ==
                 !.expect = IF ord /\ @ # <<>> /\ Head(@) = c THEN Tail(@) ELSE
                            IF ord THEN SelectSeq(@, LAMBDA x : x # c) ELSE @]
 
+\* C05: whatever finished during a call has been released when the call returns
+Released(s) == Chk(s, \A c \in DOMAIN s.ch : s.ch[c].st # "fin", "C05",
+                   "a finished child was not dropped before the poll that observed its completion returned")
+\* C04, the stalled form of "not in queue order": the output that is next in queue order exists (its future has finished)
+\* and the collection was polled, yet it answered Pending or None instead of yielding it.
+HeadStuck(s) == s.kind \in OrderedKinds /\ s.expect # <<>> /\ <<Head(s.expect), 0>> \in s.tok
 StepRet(s, e) ==
   LET s0  == Alloc([s EXCEPT !.inpoll = FALSE, !.lastret = e.res, !.unw = FALSE], e.al)
       \* C05: whatever finished during this call has been released by now
-      s1  == Chk(s0, \A c \in DOMAIN s0.ch : s0.ch[c].st # "fin", "C05",
-                 "a finished child was not dropped before the poll that observed its completion returned")
-      s2  == CASE e.res = "item" -> [Yield(s1, e.c, e.k) EXCEPT !.qn = 0, !.act = TRUE]
+      s1  == Released(s0)
+      s2  == CASE e.res = "item" -> [Yield(s1, e.c, e.k) EXCEPT !.qn = 0, !.act = TRUE, !.owed = Max(@ - 1, 0)]
                [] e.res \in {"none", "done"} ->
-                    [Chk(s1, Finished(s1), DeliveryProp(s.kind), "reported the end while something is still held, parked or upstream is not exhausted")
+                    [Chk(Chk(s1, Finished(s1), DeliveryProp(s.kind), "reported the end while something is still held, parked or upstream is not exhausted"),
+                         s1.owed = 0, "C17", "the stream ended although an earlier size_hint lower bound promised more items")
                       EXCEPT !.qn = 0, !.act = TRUE]
                [] e.res = "pending" ->
                     LET a == Chk(s1, ~Finished(s1), DeliveryProp(s.kind), "Pending although nothing is held, parked or left upstream")
@@ -315,7 +325,9 @@ StepRet(s, e) ==
                              ELSE [c EXCEPT !.qn = 0]
                     IN d
                [] OTHER -> s1
-  IN Age(s2)
+      s3  == IF e.res \in {"pending", "none"} /\ HeadStuck(s1)
+             THEN V(s2, "C04", "the output next in queue order is ready but the poll did not yield it") ELSE s2
+  IN Age(s3)
 
 \* --------------------------------------------------------------- drop / end
 StepDropB(s, e) == [s EXCEPT !.indrop = TRUE]
@@ -328,14 +340,21 @@ StepDropE(s, e) ==
 StepEnd(s, e) ==
   LET s1 == Chk(s, s.poison \/ (DOMAIN s.ch = {} /\ s.pend = {}), "C06", "a child was never dropped (leak)")
       s2 == Chk(s1, s.poison \/ (s.tok = {} /\ s.out = {}), "C06", "an output was never dropped (leak)")
-  IN s2
+      \* the upstream given to an adapter (observed through its address: recorded runs only)
+      s3 == Chk(s2, s.poison \/ s.upaddr = 0 \/ s.updrops = 1, "C06", "the upstream stream was never dropped (leak)")
+  IN s3
 
 StepDrainFail(s, e) ==
   V(s, DeliveryProp(s.kind), "kept being polled with every child ready but never delivered everything / never ended")
 
 \* --------------------------------------------------------------- adapters
+\* the upstream of an adapter is a pinned stream as well (C08): every poll and its drop see the address of its first poll
+UpAddr(s, e, what) ==
+  IF "addr" \in DOMAIN e
+  THEN [Chk(s, s.upaddr = 0 \/ s.upaddr = e.addr, "C08", what) EXCEPT !.upaddr = IF @ = 0 THEN e.addr ELSE @]
+  ELSE s
 StepUp(s, e) ==
-  LET s0 == Chk(s, ~s.upDone, "C10", "upstream polled again after it ended")
+  LET s0 == UpAddr(Chk(s, ~s.upDone, "C10", "upstream polled again after it ended"), e, "upstream observed at a different address")
   IN CASE e.resp = "P" -> [s0 EXCEPT !.upPend = TRUE]
        [] e.resp = "E" -> [s0 EXCEPT !.upDone = TRUE, !.qn = 0, !.act = TRUE]
        [] e.resp = "I" ->
@@ -353,7 +372,7 @@ StepUp(s, e) ==
 \* --------------------------------------------------------------- joins
 StepVec(s, e) ==
   LET v  == e.v
-      s0 == Alloc([s EXCEPT !.inpoll = FALSE, !.lastret = "vec"], e.al)
+      s0 == Released(Alloc([s EXCEPT !.inpoll = FALSE, !.lastret = "vec"], e.al))
       ok == \A i \in 1..Len(v) : <<v[i], 0>> \in s.tok
       s1 == Chk(s0, ok, "C07", "returned a Vec element that no input produced")
       full == s.resolved \/ (Len(v) = Len(s.inputs) /\ NHeld(s) = 0)
@@ -365,7 +384,7 @@ StepVec(s, e) ==
 
 StepErr(s, e) ==
   LET t  == <<e.c, 0>>
-      s0 == Alloc([s EXCEPT !.inpoll = FALSE, !.lastret = "err"], e.al)
+      s0 == Released(Alloc([s EXCEPT !.inpoll = FALSE, !.lastret = "err"], e.al))
       s1 == Chk(s0, t \in s.tok /\ t \in s.errs, "C07", "returned an error that no input produced")
       s2 == Chk(s1, s.resolved \/ e.c = s.firstErr, "C07", "error is not that of the first input observed to fail")
   IN Age([s2 EXCEPT !.tok = @ \ {t}, !.out = IF t \in s.tok THEN @ \cup {t} ELSE @, !.resolved = TRUE])
@@ -394,6 +413,8 @@ Step(s, e) ==
     [] e.e = "vec"    -> StepVec(s, e)
     [] e.e = "err"    -> StepErr(s, e)
     [] e.e = "up"     -> StepUp(s, e)
+    [] e.e = "updrop" -> [UpAddr(Chk(s, s.updrops = 0, "C06", "the upstream stream was dropped twice"), e, "upstream dropped at a different address")
+                           EXCEPT !.updrops = @ + 1]
     [] e.e = "dropc_b"-> StepDropB(s, e)
     [] e.e = "dropc_e"-> StepDropE(s, e)
     [] e.e = "drain_fail" -> StepDrainFail(s, e)
